@@ -61,6 +61,7 @@ def cop(o):
     if k == 'new': return '(ONewSession %s)' % cz(o[1])
     if k == 'real': return '(ODeclReal %s %s %s %s)' % (costr(o[1]), cz(o[2]), cz(o[3]), cbool(o[4]))
     if k == 'complex': return '(ODeclComplex %s %s %s %s %s)' % (costr(o[1]), cz(o[2]), cz(o[3]), cz(o[4]), cbool(o[5]))
+    if k == 'ens': return '(ODeclEnsemble %s %s)' % (clist(['(%s, %s)' % (costr(l), cz(u)) for l, u in o[1]]), cz(o[2]))
     if k == 'const': return 'OConst'
     if k == 'constc': return 'OConstC'
     if k == 'other': return 'OOther'
@@ -138,7 +139,9 @@ class ASession(object):
         if hasattr(n, 'correlation'):
             items = n.correlation.items() if isinstance(n.correlation, dict) else n.correlation
             cr = L([L([t_uid(k), Z(code_r(v))]) for k, v in items])
-        return L([t_ostr(n.label), Z(code16(n.u)), Z(code_df(n.df)), Z(1 if n.independent else 0), cx, cr])
+        en = Z(0)
+        if hasattr(n, 'ensemble'): en = L([t_uid(k) for k in sorted(uid2(k) for k in n.ensemble)])
+        return L([t_ostr(n.label), Z(code16(n.u)), Z(code_df(n.df)), Z(1 if n.independent else 0), cx, cr, en])
     def t_node(self, n):
         if n is None: return Z(0)
         if isinstance(n, self.nodes.Leaf):
@@ -208,6 +211,9 @@ class ASession(object):
             elif k == 'complex':
                 x = core.ucomplex(complex(1, 2), (o[2] / 16.0, o[3] / 16.0), float('inf') if o[4] < 0 else float(o[4]),
                                   label=o[1], independent=o[5]); new = [x]
+            elif k == 'ens':
+                new = list(core.multiple_ureal([2.0 + i for i in range(len(o[1]))], [u / 16.0 for _, u in o[1]],
+                                               float('inf') if o[2] < 0 else float(o[2]), label_seq=[l for l, _ in o[1]]))
             elif k == 'const': new = [core.constant(3.0)]
             elif k == 'constc': new = [core.constant(1 + 2j)]
             elif k == 'other': new = [1.5]
@@ -297,11 +303,22 @@ def kinds(s):
         if isinstance(o, lib.UncertainReal):
             kk = rk(o); d[kk].append(i)
             if kk == 'elem' and not o._node.independent and math.isinf(o._node.df): d['dep'].append(i)
+            if kk == 'elem' and not o._node.independent and len(getattr(o._node, 'ensemble', ())) > 1: d.setdefault('ens', []).append(i)
         elif isinstance(o, lib.UncertainComplex):
             a, b = rk(o.real), rk(o.imag)
             d['c' + a if a == b else 'cmixed'].append(i)
         else: d['other'].append(i)
     return d
+
+def ens_pair(s, rng):
+    """two live members of one ensemble (set_correlation is allowed between them whatever the dof)"""
+    e = kinds(s).get('ens', [])
+    rng.shuffle(e)
+    for a in e:
+        for b in e:
+            ua, ub = s.objs[a]._node.uid, s.objs[b]._node.uid
+            if ua != ub and ub in s.objs[a]._node.ensemble: return a, b
+    return None
 
 def gen_history(rng, k0, nops, malformed):
     """build a history adaptively while executing it on the implementation"""
@@ -316,6 +333,7 @@ def gen_history(rng, k0, nops, malformed):
         return pick(pick(pools)) if pools else None
     def decl():
         r = rng.random()
+        if r < 0.06: return ['ens', [(pick(LABELS), rng.randint(1, 40)) for _ in range(rng.randint(2, 4))], rng.choice([-1, 4, 9])]
         if r < 0.45: return ['real', pick(LABELS), rng.randint(1, 40), rng.choice([-1, -1, 3, 7]), rng.random() < 0.5]
         if r < 0.62: return ['real', pick(LABELS), rng.randint(1, 40), -1, False]
         if r < 0.92: return ['complex', pick(LABELS), rng.randint(1, 40), rng.randint(1, 40), rng.choice([-1, -1, 5]), rng.random() < 0.5]
@@ -334,7 +352,9 @@ def gen_history(rng, k0, nops, malformed):
             c = pick(d['plain'] + d['cplain'] + (d['elem'] + d['celem'] + d['interm'] + d['const'] + d['cconst'] if rng.random() < 0.3 else []))
             if c is not None: o = ['result', c, pick(LABELS)]
         elif r < 0.30:
-            if len(d['dep']) >= 2:
+            ep = ens_pair(s, rng)
+            if ep and rng.random() < 0.5: o = ['corr', ep[0], ep[1], rng.choice([-4, -2, 2, 4])]
+            elif len(d['dep']) >= 2:
                 a, b = rng.sample(d['dep'], 2)
                 if s.objs[a]._node.uid != s.objs[b]._node.uid:
                     o = ['corr', a, b, rng.choice([-6, -4, -2, 1, 2, 4, 6])]
@@ -474,6 +494,13 @@ EXTRA.append(
      ['new', 15], ['read', 1], ['read', 0], ['extract', 1, ['x']], ['read', 1],
      ['new', 13], ['read', 0], ['read', 1], ['read', 0]])
 
+# an ensemble split across two archives, read back with the ensemble alive, via copy, and in a new session
+EXTRA.append(
+    [['ens', [(None, 2), ('x2', 3), (None, 5)], 5], ['corr', 0, 1, 4], ['corr', 1, 2, -2], ['mul', 0, 1],
+     ['archive'], ['add', 0, [('x1', 0)]], ['write', 0, 'json'], ['archive'], ['add', 1, [('x2', 1), ('x3', 2)]], ['write', 1, 'xml'],
+     ['read', 0], ['read', 1], ['copy', 0], ['copy', 1], ['extract', 2, ['x1']], ['extract', 3, ['x2', 'x3']], ['mul', 4, 5],
+     ['new', 14], ['read', 1], ['read', 0], ['extract', 0, ['x3']], ['new', 15], ['read', 0], ['read', 1]])
+
 def gen_multi(rng, k0):
     """writer session: several archives written at different times sharing dependent influence quantities, with
     correlations declared between the writes; then reader sessions (fresh context id, sometimes the writer's id
@@ -484,6 +511,13 @@ def gen_multi(rng, k0):
     def new_dep():
         s.do(['real', pick([None, None, 'x', 'y']), rng.randint(1, 40), -1, False]); deps.append(len(s.objs) - 1)
     for _ in range(rng.randint(3, 5)): new_dep()
+    ens = []
+    if rng.random() < 0.6:                 # a finite-dof ensemble: the archives below hold PARTS of it
+        n0 = len(s.objs)
+        s.do(['ens', [(pick([None, 'e']), rng.randint(1, 40)) for _ in range(rng.randint(3, 4))], rng.choice([4, 9, -1])])
+        ens = list(range(n0, len(s.objs)))
+        for _ in range(rng.randint(0, 2)):
+            a, b = rng.sample(ens, 2); s.do(['corr', a, b, rng.choice([-4, -2, 2, 4])])
     if rng.random() < 0.4: s.do(['real', pick(LABELS), rng.randint(1, 40), rng.choice([-1, 5]), True])
     if rng.random() < 0.4:
         s.do(['complex', pick([None, 'z']), rng.randint(1, 40), rng.randint(1, 40), -1, False])
@@ -496,6 +530,12 @@ def gen_multi(rng, k0):
                 s.do(['corr', a, b, rng.choice([-6, -4, -2, 1, 2, 4, 6])])
         if rng.random() < 0.4: new_dep()
         members = rng.sample(deps, rng.randint(1, min(3, len(deps))))
+        if ens:
+            members += rng.sample(ens, rng.randint(1, len(ens) - 1))           # a strict part of the ensemble
+            if rng.random() < 0.5:
+                a, b = rng.sample(ens, 2); s.do(['mul', a, b]); s.do(['result', len(s.objs) - 1, None]); members.append(len(s.objs) - 1)
+            if t > 0 and rng.random() < 0.4:
+                a, b = rng.sample(ens, 2); s.do(['corr', a, b, rng.choice([-2, 2, 4])])
         if rng.random() < 0.5:
             a, b = pick(deps), pick(deps)
             s.do(['mul', a, b]); s.do(['result', len(s.objs) - 1, pick([None, 'm'])]); members.append(len(s.objs) - 1)
